@@ -16,6 +16,11 @@ A spec is a JSON list of items
    "params": [["N","Int"],["max_parts","Int"]],  free names of the expression, with Lean types
    "ret": "Int",                               Lean type of the result
    "rename": {"self.N": "N", "mpi.size": "size"}  optional: dotted names -> parameter
+   "calls": {"np.tanh": "th", "self.grid.angular_distance": "d"}
+                                               optional: calls of these (dotted) functions are kept
+                                               uninterpreted: without arguments -> the parameter
+                                               itself, with one argument -> `(th <arg>)` where the
+                                               parameter is declared with a function type
   }
 
 and the generated file contains, for each item, the source text as a comment
@@ -130,6 +135,7 @@ class Tr:
     def __init__(self, item):
         self.types = {p: t for p, t in item["params"]}
         self.rename = item.get("rename", {})
+        self.calls = item.get("calls", {})
 
     # returns (lean_text, type) with type in {"Int", "Rat", "Prop"}
     def tr(self, n):
@@ -186,6 +192,12 @@ class Tr:
         if isinstance(n, ast.Call):
             f = dotted(n.func)
             args = n.args
+            if f in self.calls and not n.keywords and len(args) <= 1:
+                # uninterpreted function / method call declared in the spec
+                if not args:
+                    return self.calls[f], "Rat"
+                x, tx = self.tr(args[0])
+                return f"({self.calls[f]} {self.rat(x, tx)})", "Rat"
             if f in ("int",) and len(args) == 1:
                 inner = args[0]
                 # int(np.ceil(a / b))
